@@ -102,7 +102,9 @@ fn gen_grid(k: u64) -> MmCase {
 
 fn gen_rand(r: &mut Rng) -> MmCase {
     let (m, k, n) = (r.range(1, 4), r.range(1, 4), r.range(1, 4));
-    let nl = r.below(3);
+    // up to two leading dimensions as a rule (the property's "up to 2"), now and then three - the general rule holds
+    // there as well
+    let nl = if r.chance(1, 10) { 3 } else { r.below(3) };
     let lead: Vec<usize> = (0..nl).map(|_| r.range(1, 3)).collect();
     let side = |r: &mut Rng| -> Vec<usize> {
         match r.below(4) {
